@@ -299,7 +299,17 @@ func TestSubscriptionManager(t *testing.T) {
 		})
 		acts.add("Unsubscribe", 4, func(rt *rapid.T) {
 			c := client.Draw(rt, "c")
-			tp := topicFor(c).Draw(rt, "t")
+			tp := anyTopic.Draw(rt, "t")
+			if rapid.Bool().Draw(rt, "preferOwn") {
+				// a topic the client holds, if any
+				for i := 0; i < subTopics; i++ {
+					if m.clients[c][(tp+i)%subTopics] > 0 {
+						tp = (tp + i) % subTopics
+
+						break
+					}
+				}
+			}
 			if m.clients[c][tp] > 1 {
 				interesting("unsubscribe_multiply_subscribed")
 			}
